@@ -16,6 +16,11 @@ var sanitizer = strings.NewReplacer( // TODO
 	"\t", ``,
 )
 
+// quoter doubles single quotes: the only escape inside a single-quoted powershell string
+var quoter = strings.NewReplacer(
+	`'`, `''`,
+)
+
 type completionResult struct {
 	CompletionText string
 	ListItemText   string
@@ -50,8 +55,8 @@ func ActionRawValues(currentWord string, meta common.Meta, values common.RawValu
 			val.Value = sanitizer.Replace(val.Value)
 			nospace := meta.Nospace.Matches(val.Value)
 
-			if strings.ContainsAny(val.Value, ` {}()[]*$?\"|<>&(),;#`+"`") {
-				val.Value = fmt.Sprintf("'%v'", val.Value)
+			if strings.ContainsAny(val.Value, ` {}()[]*$?\"'|<>&(),;#`+"`") || strings.HasPrefix(val.Value, "@") {
+				val.Value = fmt.Sprintf("'%v'", quoter.Replace(val.Value))
 			}
 
 			if !nospace {
